@@ -108,7 +108,7 @@ def execute_scenarios(ctx, sym, mod, code='x = 1'):
     """Sandbox._execute executed abstractly for every raise point (compile, tracer enter, exec, tracer exit, none) x
     exception class. Yields (where, kind, observations)."""
     from .. import symexec
-    from ..fdeval import Obj, Raised
+    from ..fdeval import Obj, Raised, Inconclusive
     fn = mod.func('Sandbox._execute')
     ctx.analysed_function(mod, fn)
     # (kind, label, what an exception object of that kind carries)
@@ -143,10 +143,28 @@ def execute_scenarios(ctx, sym, mod, code='x = 1'):
             for name in ('clear_exception', '_start_mocking', '_stop_mocking', '_capture_exception',
                          '_execute_with_timeout', '_stop_patches'):
                 symexec.method(me, name, rec.stub(name))
+            import builtins as _bi
+
+            def b_type(o):
+                # the class of a student exception is the builtin class of its kind
+                if isinstance(o, Obj) and o.attrs.get('exc_kind'):
+                    return getattr(_bi, o.attrs['exc_kind'])
+                if isinstance(o, Obj):
+                    raise Inconclusive('type() of a model object')
+                return type(o)
+
+            def b_isinstance(o, t):
+                ts = t if isinstance(t, tuple) else (t,)
+                if isinstance(o, Obj) and o.attrs.get('exc_kind'):
+                    return any(isinstance(x, type) and issubclass(getattr(_bi, o.attrs['exc_kind']), x) for x in ts)
+                if isinstance(o, Obj):
+                    return False
+                return any(isinstance(x, type) and isinstance(o, x) for x in ts)
             fd = symexec.new_fd(sym, mod, calls={
                 'compile': boom('compile', ret=symexec.marker('code-object')), 'exec': boom('exec'),
                 'SandboxContext': rec.stub('SandboxContext', fn=lambda *a, **k: Obj('context')),
-                'sys.exc_info': lambda: exc_info})
+                'sys.exc_info': lambda: exc_info, 'type': b_type, 'isinstance': b_isinstance,
+                'issubclass': lambda c, t: isinstance(c, type) and issubclass(c, t)})
             value, raised = symexec.run(fd, fn, [code, 'answer.py', 'run', False], bound_self=me,
                                         what='Sandbox._execute')
             yield where, kind, dict(rec=rec, value=value, raised=raised, me=me, exc=exc, exc_info=exc_info, label=label)
